@@ -69,7 +69,7 @@ struct Gen
                 auto& kv = target->kv[rng.below(target->kv.size())];
                 // families with honest senders and strict equality oracles only get tweaks that stay inside the property's domain
                 const bool honest = plan.prop == "C01" || plan.prop == "C05" || plan.prop == "C06" || plan.prop == "C16";
-                static const char* safe[] = {"ts", "ifid", "len", "id", "trail", "alt", "min", "max", "mode", "build", "ver", "pifid", "dev", "what", "val"};
+                static const char* safe[] = {"ts", "ifid", "len", "id", "trail", "alt", "min", "max", "mode", "build", "ver", "pifid", "dev", "what", "val", "stream", "seq"};
                 bool isSafe = false;
                 for (const char* k : safe)
                     if (kv.first == k)
@@ -177,6 +177,16 @@ struct Gen
             auto& c = cand[rng.below(cand.size())];
             auto& kv = c.first->kv[c.second];
             int64_t v = lits[rng.below(lits.size())];
+            if (kv.first == "ts" || kv.first == "ifid" || kv.first == "pifid" || kv.first == "dflags" || kv.first == "xflags")
+            {
+                // wide fields: a wide literal (the small ones are reached by ordinary draws anyway)
+                std::vector<int64_t> wide;
+                for (int64_t l : lits)
+                    if (l < 0 || l > 255)
+                        wide.push_back(l);
+                if (!wide.empty() && rng.chance(3, 4))
+                    v = wide[rng.below(wide.size())];
+            }
             switch (rng.below(8))
             {
                 case 0:
